@@ -4,12 +4,12 @@ go 1.21.0
 
 require (
 	github.com/foxboron/go-uefi v0.0.0
+	github.com/spf13/afero v1.9.3
 	go.mozilla.org/pkcs7 v0.0.0-20200128120323-432b2356ecb1
 )
 
 require (
 	github.com/pkg/errors v0.9.1 // indirect
-	github.com/spf13/afero v1.9.3 // indirect
 	golang.org/x/crypto v0.31.0 // indirect
 	golang.org/x/sys v0.28.0 // indirect
 	golang.org/x/text v0.21.0 // indirect
